@@ -97,22 +97,32 @@ Proof.
   pose proof (firstn_le_length n bs). lia.
 Qed.
 
+(* the auxiliary part of a record is a whole number of 18-byte records, at most 255 of them (one count byte) *)
+Definition aux_ok (a : list byte) : Prop := zlen a mod 18 = 0 /\ zlen a / 18 < 256.
+
+Definition naux (e : sym_entry) : Z := match se_aux e with Some a => zlen a / 18 | None => 0 end.
+
 Lemma pack_sym_length e : Datatypes.length (se_name e) = 8%nat ->
-  match se_aux e with Some a => Datatypes.length a = 18%nat | None => True end ->
-  zlen (pack_sym e) = 18 * (1 + match se_aux e with Some _ => 1 | None => 0 end).
+  match se_aux e with Some a => aux_ok a | None => True end ->
+  zlen (pack_sym e) = 18 * (1 + naux e).
 Proof.
-  intros Hn Ha. unfold pack_sym, zlen. rewrite !app_length, !le_length, Hn. cbn [Datatypes.length].
-  destruct (se_aux e) as [a|]; [rewrite Ha|]; cbn [Datatypes.length]; lia.
+  intros Hn Ha. unfold pack_sym, naux. rewrite !zlen_app, !zlen_le. unfold zlen at 1. rewrite Hn.
+  destruct (se_aux e) as [a|].
+  - destruct Ha as [Hm _]. pose proof (Z.div_mod (zlen a) 18 ltac:(lia)) as Hd. rewrite Hm in Hd.
+    unfold zlen at 1 2. cbn [Datatypes.length]. fold (zlen a). change (Z.of_nat 8) with 8. change (Z.of_nat 4) with 4. change (Z.of_nat 2) with 2. change (Z.of_nat 1) with 1. lia.
+  - unfold zlen. cbn [Datatypes.length]. lia.
 Qed.
 
 Definition entry_ok (e : sym_entry) : Prop :=
-  Datatypes.length (se_name e) = 8%nat /\ match se_aux e with Some a => Datatypes.length a = 18%nat | None => True end.
+  Datatypes.length (se_name e) = 8%nat /\ match se_aux e with Some a => aux_ok a | None => True end.
+
+Lemma nrecords_cons' e r : nrecords (e :: r) = nrecords r + 1 + naux e.
+Proof. reflexivity. Qed.
 
 Lemma flat_pack_length es : Forall entry_ok es -> zlen (flat_map pack_sym es) = 18 * nrecords es.
 Proof.
   induction 1 as [|e r [Hn Ha] Hr IH]; [reflexivity|].
-  cbn [flat_map nrecords fold_right]. rewrite zlen_app, IH, pack_sym_length by assumption.
-  fold (nrecords r). destruct (se_aux e); lia.
+  cbn [flat_map]. rewrite nrecords_cons', zlen_app, IH, pack_sym_length by assumption. lia.
 Qed.
 
 (** the writer as  header(140 bytes) ++ text ++ symbol records ++ string table *)
@@ -167,10 +177,19 @@ Proof.
      constructor; [split; [exact Hl | exact I] | exact IH]).
 Qed.
 
+Lemma file_naux_bounds f : (1 <= file_naux f <= 255)%nat.
+Proof. unfold file_naux. lia. Qed.
+
+Lemma aux_ok_18 a : Datatypes.length a = 18%nat -> aux_ok a.
+Proof. intros H. unfold aux_ok, zlen. rewrite H. split; reflexivity. Qed.
+
 Lemma fixed_entries_ok t f : Forall entry_ok (fixed_entries t f).
 Proof.
-  unfold fixed_entries, sec_sym, entry_ok. repeat constructor; cbn [se_name se_aux];
-    try apply pad_to_length; rewrite ?app_length, ?le_length, ?repeat_length; reflexivity.
+  unfold fixed_entries, sec_sym, entry_ok. constructor; [|repeat constructor; cbn [se_name se_aux];
+    try apply pad_to_length; apply aux_ok_18; rewrite ?app_length, ?le_length, ?repeat_length; reflexivity].
+  cbn [se_name se_aux]. split; [apply pad_to_length|].
+  pose proof (file_naux_bounds f) as Hb. unfold aux_ok, zlen. rewrite pad_to_length.
+  rewrite Nat2Z.inj_mul. change (Z.of_nat 18) with 18. rewrite Z.mul_comm, Z_mod_mult, Z.div_mul by lia. split; [reflexivity | lia].
 Qed.
 
 Lemma perm_forall {A} (P : A -> Prop) l l' : Permutation l l' -> Forall P l' -> Forall P l.
